@@ -52,6 +52,123 @@ let show_lst (v : value) (idx : n list) : string =
     "isl=" ^ b01 (is_list v) ^ b01 (is_dotted_list v);
     "get=" ^ String.concat " , " (List.map (fun i -> show_ov (get_usize v i) ^ " / " ^ string_of_value (index_or_nil (get_usize v i))) idx) ]
 
+(* ---- parser ops ---- *)
+let alpha_ranges : (int * int) array ref = ref [||]
+let load_alpha () =
+  match Sys.getenv_opt "LEXPR_ALPHA" with
+  | None -> ()
+  | Some path ->
+      let ic = open_in path in
+      let l = ref [] in
+      (try while true do
+         let line = input_line ic in
+         match String.split_on_char ' ' line with
+         | [a; b] -> l := (int_of_string a, int_of_string b) :: !l
+         | _ -> ()
+       done with End_of_file -> ());
+      close_in ic;
+      alpha_ranges := Array.of_list (List.rev !l)
+let alpha (c : n) : bool =
+  let x = int_of_n c in
+  let a = !alpha_ranges in
+  let lo = ref 0 and hi = ref (Array.length a - 1) and found = ref false in
+  while not !found && !lo <= !hi do
+    let mid = (!lo + !hi) / 2 in
+    let (s, e) = a.(mid) in
+    if x < s then hi := mid - 1 else if x > e then lo := mid + 1 else found := true
+  done;
+  !found
+let fast_float = match Sys.getenv_opt "LEXPR_FAST" with Some "0" -> false | _ -> true
+
+let read_ro (t : toks) : parse_options =
+  let s = next t in
+  let d i = Char.code s.[i] - 48 in
+  { ro_kw_prefix = d 0 land 1 <> 0; ro_kw_postfix = d 0 land 2 <> 0; ro_kw_octo = d 0 land 4 <> 0;
+    ro_nil = (match d 1 with 0 -> NsEmptyList | 1 -> NsDefault | _ -> NsSpecial);
+    ro_t = (match d 2 with 0 -> TsTrue | _ -> TsDefault);
+    ro_brackets = (match d 3 with 0 -> BrList | _ -> BrVector);
+    ro_string = (match d 4 with 0 -> StrR6RS | _ -> StrElisp);
+    ro_char = (match d 5 with 0 -> ChrR6RS | _ -> ChrElisp);
+    ro_racket = d 6 = 1; ro_digit = d 7 = 1 }
+
+let read_src (t : toks) : src_kind =
+  match next t with "str" -> SrcStr | "slice" -> SrcSlice | _ -> SrcIo
+
+(* events: b<hex> | i | f<id>, or a bare hex string for pure bytes *)
+let read_events (t : toks) : event list =
+  let acc = ref [] in
+  while has_more t do
+    let s = next t in
+    (match s.[0] with
+     | 'b' -> List.iter (fun b -> acc := EByte b :: !acc) (bytes_of_hex (String.sub s 1 (String.length s - 1)))
+     | 'i' -> acc := EInterrupted :: !acc
+     | 'f' -> acc := EFail (n_of_dec (String.sub s 1 (String.length s - 1))) :: !acc
+     | '-' -> ()
+     | _ -> failwith "bad event")
+  done;
+  List.rev !acc
+
+let code_name = function
+  | EofWhileParsingList -> "EofWhileParsingList" | EofWhileParsingVector -> "EofWhileParsingVector"
+  | EofWhileParsingString -> "EofWhileParsingString" | EofWhileParsingValue -> "EofWhileParsingValue"
+  | EofWhileParsingCharacterConstant -> "EofWhileParsingCharacterConstant"
+  | ExpectedSomeIdent -> "ExpectedSomeIdent" | MismatchedParenthesis -> "MismatchedParenthesis"
+  | ExpectedSomeValue -> "ExpectedSomeValue" | ExpectedVector -> "ExpectedVector"
+  | ExpectedOctet -> "ExpectedOctet" | InvalidEscape -> "InvalidEscape" | InvalidNumber -> "InvalidNumber"
+  | InvalidSymbol -> "InvalidSymbol" | NumberOutOfRange -> "NumberOutOfRange"
+  | InvalidUnicodeCodePoint -> "InvalidUnicodeCodePoint"
+  | InvalidCharacterConstant -> "InvalidCharacterConstant" | TrailingCharacters -> "TrailingCharacters"
+  | RecursionLimitExceeded -> "RecursionLimitExceeded"
+
+let show_err = function
+  | ESyntax (c, l, cl) -> Printf.sprintf "err %s %s %s" (code_name c) (dec_of_n l) (dec_of_n cl)
+  | EIo e -> "io " ^ dec_of_n e
+  | EPanic k -> "panic " ^ dec_of_n k
+  | EFuel -> "fuel"
+
+let show_span (s : span) : string =
+  let (l1, c1) = s.sp_start and (l2, c2) = s.sp_end in
+  Printf.sprintf "%s:%s-%s:%s" (dec_of_n l1) (dec_of_n c1) (dec_of_n l2) (dec_of_n c2)
+
+(* the span tree as it is observable through Ref::{span, as_pair, vector_iter} *)
+let rec show_info (b : Buffer.t) (v : value) (i : span_info) : unit =
+  match v, i with
+  | Cons (a, d), SCons (s, ia, id) ->
+      (* iterate along the cdr chain to keep the recursion shallow *)
+      Buffer.add_string b ("c(" ^ show_span s ^ " ");
+      show_info b a ia; Buffer.add_char b ' ';
+      show_info b d id; Buffer.add_char b ')'
+  | Cons (_, _), _ -> Buffer.add_string b "BADSHAPE"
+  | Vector l, SVec (s, il) ->
+      Buffer.add_string b (Printf.sprintf "v(%s %d" (show_span s) (List.length l));
+      (try List.iter2 (fun x ix -> Buffer.add_char b ' '; show_info b x ix) l il
+       with Invalid_argument _ -> Buffer.add_string b " BADSHAPE");
+      Buffer.add_char b ')'
+  | Vector _, _ -> Buffer.add_string b "BADSHAPE"
+  | _, _ -> Buffer.add_string b ("p(" ^ show_span (info_span i) ^ ")")
+
+let show_datum (d : datum) : string =
+  let b = Buffer.create 64 in
+  show_value b d.dvalue; Buffer.add_string b " @ "; show_info b d.dvalue d.dinfo; Buffer.contents b
+
+let show_vres = function Ok v -> "ok " ^ string_of_value v | Err e -> show_err e
+let show_dres = function Ok d -> "ok " ^ show_datum d | Err e -> show_err e
+
+let read_calls (s : string) : call list =
+  List.init (String.length s) (fun i -> match s.[i] with
+    | 'v' -> CallNextValue | 'd' -> CallNextDatum | 'V' -> CallExpectValue
+    | 'D' -> CallExpectDatum | _ -> CallExpectEnd)
+
+let show_call_result = function
+  | RValue None -> "v -"
+  | RValue (Some v) -> "v " ^ string_of_value v
+  | RDatum None -> "d -"
+  | RDatum (Some d) -> "d " ^ show_datum d
+  | RUnit -> "u"
+  | RErr e -> show_err e
+
+let std_parse (sg : n) (e : z) : f64 = dec_to_f64 sg e
+
 let read_prim (t : toks) : prim =
   let s = next t in
   let i = String.index s ':' in
@@ -113,12 +230,44 @@ let run_case (line : string) : string =
       let key = read_value t in
       let v = read_value t in
       show_ov (get_value v key) ^ " / " ^ string_of_value (index_or_nil (get_value v key))
+  | "parse" ->
+      let k = read_src t in
+      let ro = read_ro t in
+      let ev = read_events t in
+      show_vres (from_trait ro alpha fast_float std_parse k ev)
+  | "datum" ->
+      let k = read_src t in
+      let ro = read_ro t in
+      let ev = read_events t in
+      show_dres (datum_from_trait ro alpha fast_float std_parse k ev)
+  | "iter" ->
+      (* iter <src> <ro> <v|d> <cap> <events> *)
+      let k = read_src t in
+      let ro = read_ro t in
+      let mode = next t in
+      let cap = int_of_string (next t) in
+      let ev = read_events t in
+      let st = init_state k ev in
+      let fuel = fuel_for ev in
+      if mode = "v" then
+        String.concat " ;; " (List.map show_vres (iterate_values ro alpha fast_float std_parse fuel (nat_of_int cap) st))
+      else
+        String.concat " ;; " (List.map show_dres (iterate_datums ro alpha fast_float std_parse fuel (nat_of_int cap) st))
+  | "hist" ->
+      (* hist <src> <ro> <calls> <events> *)
+      let k = read_src t in
+      let ro = read_ro t in
+      let calls = read_calls (next t) in
+      let ev = read_events t in
+      let st = init_state k ev in
+      String.concat " ;; " (List.map show_call_result (run_history ro alpha fast_float std_parse (fuel_for ev) calls st))
   | "fromf64" ->
       let f = f64_of_bits (n_of_hex (next t)) in
       (match num_from_f64 f with None -> "-" | Some n -> string_of_value (Number n))
   | op -> "?unknown-op " ^ op
 
 let () =
+  load_alpha ();
   let ic = if Array.length Sys.argv > 1 then open_in Sys.argv.(1) else stdin in
   let oc = if Array.length Sys.argv > 2 then open_out Sys.argv.(2) else stdout in
   (try
